@@ -10,13 +10,24 @@ from harness import core, oracles
 ID = "C06"
 RULE = ("loader kinds manual / empirical / marginal-direct / marginal-sampling / function, each through direct construction "
         "and through JointDegreeDistribution.load_joint_degree (which calls create_jdd a second time): exhaustive small "
-        "empirical sequences (all sequences of length <= 4 over 3 keys) and all one-/two-dimensional marginal boxes with "
-        "bounds in 0..3 on fixed tables, then seeded random tables (dyadic values, zeros included), 0-3 topologies, boxes of "
-        "<= 36 points incl. empty and inverted bounds, sampling with scripted random.choices (1-12 samples, all answers "
-        "scripted, two rounds through the dispatcher); malformed: all-zero marginal (ZeroDivisionError), fewer callables "
-        "than bounds (IndexError), sampling without dimensions (ValueError). Compared: the .jdd mapping as a key->value map, "
-        "every logged choices call (population, weights, k), key type tags, exception class. Non-trivial = valid case whose "
-        "distribution has >= 2 keys; distinct by full case")
+        "empirical sequences (all sequences of length <= 4 over 3 keys, motif sizes cycling through (2,2),(2,3),(3,5),(1,4) so "
+        "that column totals are mostly NOT multiples of them) and all one-/two-dimensional marginal boxes with "
+        "bounds in 0..3 on fixed tables (optional keys cycling through absent / explicit default), then seeded random tables "
+        "(dyadic values, zeros included), 0-3 topologies, free motif sizes 1..9, boxes of "
+        "<= 36 points incl. empty and inverted bounds, a share of manual/empirical keys with entries of 2**31..1e20, sampling "
+        "with scripted random.choices (1-12 samples, all answers "
+        "scripted, two rounds through the dispatcher); OPTIONAL KEYS for every loader: use_sampling absent / explicit False / "
+        "explicit True and n_samples absent / given (marginal: direct mode for absent and for explicit False, with or "
+        "without n_samples; sampling mode only with explicit True; the other loaders must ignore both keys), "
+        "joint_degree_type also present on direct construction and given as enum or as string; malformed: all-zero marginal "
+        "(ZeroDivisionError), fewer callables "
+        "than bounds (IndexError), sampling without dimensions (ValueError). The oracle is lenient and primitive-agnostic: a "
+        "call of any random primitive the documented behaviour does not make is answered from a seeded fallback and recorded "
+        "(a correspondence difference), and the distribution finally exposed is still judged by the verified checker. "
+        "Compared: the .jdd mapping as a key->value map, "
+        "every logged choices call (population, weights, k), unexpected random calls, the caller's parameters before/after "
+        "(observed sequence incl. entry types, dictionary, bounds, callables, motif sizes), key type tags, exception class. "
+        "Non-trivial = valid case whose distribution has >= 2 keys; distinct by full case")
 EXHAUSTIVE = {"quick": True, "thorough": True}
 EXPLANATION = ("general theorems (all inputs) in Props/C06.v; sampling-limit clause partial (the result is proved to be the "
                "empirical law of the column-stacked oracle answers; the law of large numbers for the RNG oracle is not "
@@ -141,20 +152,53 @@ def _bounds(rng, d, closed_box, maxpts=36):
             return b
 
 
+BIG = [2**31, 2**53 + 1, 10**16 + 1, 2**63, 2**64 + 3, 10**20 + 7]
+
+
+def _entry(rng, hi, big):
+    if big and rng.random() < 0.4:
+        return rng.choice(BIG) + rng.randint(0, 2)
+    return rng.randint(0, hi)
+
+
+def _sizes(rng, T):
+    """motif sizes: part of every loader's parameters, never part of the law"""
+    return [rng.choice([1, 2, 2, 3, 3, 4, 5, 7, 9]) for _ in range(T)]
+
+
+def _opts(rng, kind, n=None):
+    """the OPTIONAL parameter keys, passed explicitly or left out: use_sampling absent / False / True and n_samples absent /
+    given, for every loader (the marginal loader reads them: sampling mode iff use_sampling is present and True; all other
+    loaders must ignore them); `type_key`: joint_degree_type also present on direct construction, as enum or string"""
+    if kind == 3:
+        o = {"use_sampling": "True", "n_samples": n}
+    elif kind == 2:
+        o = {"use_sampling": rng.choice(["absent", "False", "False"]),
+             "n_samples": rng.choice(["absent", rng.randint(1, 12), rng.choice([0, 50, 1000])])}
+    else:
+        o = {"use_sampling": rng.choice(["absent", "absent", "False", "True"]),
+             "n_samples": rng.choice(["absent", "absent", rng.randint(0, 12)])}
+    o["type_key"] = rng.choice(["default", "default", "enum", "string"])
+    return o
+
+
 def _rand_manual(rng):
     T = rng.randint(1, 3)
+    big = rng.random() < 0.15
     keys = []
     for _ in range(rng.randint(0, 6)):
-        k = [rng.randint(0, 4) for _ in range(T)]
+        k = [_entry(rng, 4, big) for _ in range(T)]
         if k not in keys:
             keys.append(k)
-    return {"kind": 0, "jdd": [[k, qt(_dy(rng, 0, 9))] for k in keys]}
+    return {"kind": 0, "jdd": [[k, qt(_dy(rng, 0, 9))] for k in keys], "sizes": _sizes(rng, T)}
 
 
 def _rand_empirical(rng):
     T = rng.randint(1, 3)
-    pool = [[rng.randint(0, 3) for _ in range(T)] for _ in range(rng.randint(1, 5))]
-    return {"kind": 1, "jds": [list(rng.choice(pool)) for _ in range(rng.randint(0, 14))]}
+    big = rng.random() < 0.15
+    pool = [[_entry(rng, 3, big) for _ in range(T)] for _ in range(rng.randint(1, 5))]
+    # the motif sizes are free: column totals of an OBSERVED sequence need not be multiples of them
+    return {"kind": 1, "jds": [list(rng.choice(pool)) for _ in range(rng.randint(0, 14))], "sizes": _sizes(rng, T)}
 
 
 def _rand_direct(rng, bad=None):
@@ -168,7 +212,7 @@ def _rand_direct(rng, bad=None):
         ts = ts[:rng.randint(0, d - 1)]
     if bad is None and rng.random() < 0.15:
         ts.append(_table(rng, 0, 2))       # an extra, unused callable
-    return {"kind": 2, "bounds": b, "tables": ts}
+    return {"kind": 2, "bounds": b, "tables": ts, "sizes": _sizes(rng, d)}
 
 
 def _rand_sampling(rng, path, bad=None):
@@ -188,7 +232,7 @@ def _rand_sampling(rng, path, bad=None):
     if bad == "short":
         ts = ts[:rng.randint(0, d - 1)]
     rounds = [[[rng.randrange(len(closed(x))) for _ in range(n)] for x in b] for _ in range(1 + path)]
-    return {"kind": 3, "bounds": b, "tables": ts, "n": n, "rounds": rounds}
+    return {"kind": 3, "bounds": b, "tables": ts, "n": n, "rounds": rounds, "sizes": _sizes(rng, len(b))}
 
 
 def _rand_function(rng):
@@ -206,7 +250,7 @@ def _rand_function(rng):
     if d and rng.random() < 0.3:          # a value just outside the box: must not appear
         k = [x[1] + 1 for x in b]
         ft.append([k, qt(_dy(rng, 1, 9))])
-    return {"kind": 4, "bounds": b, "ftable": ft}
+    return {"kind": 4, "bounds": b, "ftable": ft, "sizes": _sizes(rng, d)}
 
 
 FIXT = [[0, qt(Fraction(1, 2))], [1, qt(Fraction(1, 4))], [2, qt(Fraction(1, 8))], [3, qt(Fraction(3, 8))], [4, qt(1)]]
@@ -224,6 +268,14 @@ def corpus():
         out.append({"kind": 2, "path": path, "bounds": [[1, 3]], "tables": [[[1, qt(0)], [2, qt(0)], [3, qt(5)]]]})   # all-zero on [1,3)
         out.append({"kind": 3, "path": path, "bounds": [[0, 2], [1, 2]], "tables": [FIXT, FIXT], "n": 4,
                     "rounds": [[[0, 2, 2, 1], [1, 1, 0, 0]], [[2, 2, 0, 1], [0, 1, 0, 1]]][:1 + path]})
+        # the optional keys passed explicitly with their default meaning: still the exact direct law
+        for us, ns in (("False", "absent"), ("False", 7), ("absent", 7)):
+            out.append({"kind": 2, "path": path, "bounds": [[0, 3], [1, 4]], "tables": [FIXT, FIXT[::-1]], "sizes": [2, 3],
+                        "opts": {"use_sampling": us, "n_samples": ns, "type_key": "default"}})
+        # observed sequences whose column totals are not multiples of the motif sizes
+        out.append({"kind": 1, "path": path, "jds": [[2, 1], [0, 1], [2, 1], [1, 2]], "sizes": [3, 4]})
+        out.append({"kind": 1, "path": path, "jds": [[5]], "sizes": [2],
+                    "opts": {"use_sampling": "True", "n_samples": 3, "type_key": "enum"}})
     return out
 
 
@@ -235,23 +287,32 @@ def generate(rng, tier):
     for n in range(0, maxlen + 1):
         for seq in itertools.product(range(3), repeat=n):
             i += 1
-            yield {"kind": 1, "path": i % 2, "jds": [list(keys3[j]) for j in seq]}
-    # exhaustive: marginal boxes on the fixed table
+            yield {"kind": 1, "path": i % 2, "jds": [list(keys3[j]) for j in seq],
+                   "sizes": [[2, 2], [2, 3], [3, 5], [1, 4]][(i // 2) % 4]}
+    # exhaustive: marginal boxes on the fixed table; the optional keys cycle through absent / explicit default
+    OPT = [{"use_sampling": us, "n_samples": ns, "type_key": "default"}
+           for us in ("absent", "False") for ns in ("absent", 5)]
+    j = 0
     for lo1, hi1 in itertools.product(range(0, 4), repeat=2):
-        yield {"kind": 2, "path": (lo1 + hi1) % 2, "bounds": [[lo1, hi1]], "tables": [FIXT]}
+        j += 1
+        yield {"kind": 2, "path": (lo1 + hi1) % 2, "bounds": [[lo1, hi1]], "tables": [FIXT], "opts": OPT[j % 4]}
         yield {"kind": 4, "path": (lo1 + hi1) % 2, "bounds": [[lo1, hi1]],
                "ftable": [[[v], q] for v, q in FIXT]}
         for lo2, hi2 in itertools.product(range(0, 4), repeat=2):
-            yield {"kind": 2, "path": (lo1 + hi2) % 2, "bounds": [[lo1, hi1], [lo2, hi2]], "tables": [FIXT, FIXT[::-1]]}
+            j += 1
+            yield {"kind": 2, "path": (lo1 + hi2) % 2, "bounds": [[lo1, hi1], [lo2, hi2]], "tables": [FIXT, FIXT[::-1]],
+                   "opts": OPT[(j // 2) % 4]}
     n = 160 if tier == "quick" else 2500
     for _ in range(n):
         for mkc in (_rand_manual, _rand_empirical, _rand_direct, _rand_function):
             c = mkc(rng)
             c["path"] = rng.randint(0, 1)
+            c["opts"] = _opts(rng, c["kind"])
             yield c
         path = rng.randint(0, 1)
         c = _rand_sampling(rng, path)
         c["path"] = path
+        c["opts"] = _opts(rng, 3, c["n"])
         yield c
     for _ in range(60 if tier == "quick" else 600):
         path = rng.randint(0, 1)
@@ -279,47 +340,78 @@ def impl(case):
     from gcmpy.joint_degree.joint_degree_loaders.joint_degree_marginal import JointDegreeMarginal
     from gcmpy.joint_degree.joint_degree_loaders.joint_degree_function import JointDegreeFunction
     from gcmpy.names.joint_degree_names import JointDegreeNames as NM
+    from gcmpy.joint_degree.joint_degree_type import JointDegreeType
     k = case["kind"]
     answers = []
     given = None
+
+    def sizes(width):
+        return list(case["sizes"]) if "sizes" in case else [2] * width
+
     if k == 0:
         given = {tuple(key): float(fr(v)) for key, v in case["jdd"]}
-        width = len(case["jdd"][0][0]) if case["jdd"] else 1
-        params = {NM.JDD: given, NM.MOTIF_SIZES: [2] * width}
+        params = {NM.JDD: given, NM.MOTIF_SIZES: sizes(len(case["jdd"][0][0]) if case["jdd"] else 1)}
         cls, tname = JointDegreeManual, "manual"
+        inputs = lambda: [list(given.items())]                              # noqa: E731
     elif k == 1:
         jds = [tuple(x) for x in case["jds"]]
-        params = {NM.JDS: jds, NM.MOTIF_SIZES: [2] * (len(jds[0]) if jds else 1)}
+        params = {NM.JDS: jds, NM.MOTIF_SIZES: sizes(len(jds[0]) if jds else 1)}
         cls, tname = JointDegreeEmpirical, "empirical"
+        inputs = lambda: [list(jds), [type(x).__name__ for x in jds]]       # noqa: E731
     elif k in (2, 3):
-        params = {NM.MOTIF_SIZES: [2] * len(case["bounds"]), NM.ARR_FP: [_fp1(t) for t in case["tables"]],
+        params = {NM.MOTIF_SIZES: sizes(len(case["bounds"])), NM.ARR_FP: [_fp1(t) for t in case["tables"]],
                   NM.LOW_HIGH_DEGREE_BOUND: [tuple(b) for b in case["bounds"]]}
         if k == 3:
-            params[NM.USE_SAMPLING] = True
-            params[NM.N_SAMPLES] = case["n"]
             for rnd in case["rounds"]:
                 answers += [("choices", list(ix)) for ix in rnd]
         cls, tname = JointDegreeMarginal, "marginal"
+        fps, bnd = params[NM.ARR_FP], params[NM.LOW_HIGH_DEGREE_BOUND]
+        inputs = lambda: [list(fps), list(bnd)]                             # noqa: E731
     else:
-        params = {NM.MOTIF_SIZES: [2] * len(case["bounds"]), NM.FP: _fpn(case["ftable"]),
+        params = {NM.MOTIF_SIZES: sizes(len(case["bounds"])), NM.FP: _fpn(case["ftable"]),
                   NM.LOW_HIGH_DEGREE_BOUND: [tuple(b) for b in case["bounds"]]}
         cls, tname = JointDegreeFunction, "function"
-    script = oracles.Script(answers)
-    with oracles.scripted(script):
+        bnd = params[NM.LOW_HIGH_DEGREE_BOUND]
+        inputs = lambda: [list(bnd)]                                        # noqa: E731
+    opts = case.get("opts") or ({"use_sampling": "True", "n_samples": case["n"]} if k == 3 else {})
+    us, ns = opts.get("use_sampling", "absent"), opts.get("n_samples", "absent")
+    if us != "absent":
+        params[NM.USE_SAMPLING] = (us == "True")
+    if ns != "absent":
+        params[NM.N_SAMPLES] = ns
+    tk = opts.get("type_key", "default")
+    tval = JointDegreeType(tname) if tk == "enum" else tname
+    msz = list(params[NM.MOTIF_SIZES])
+    before = inputs()
+    # a call of ANY random primitive the documented behaviour does not make is answered (seeded fallback) and recorded, so
+    # that the distribution finally exposed is judged by the verified checker instead of the run dying half-way
+    script = oracles.LenientScript(answers, seed=len(repr(case)))
+    with oracles.lenient_scripted(script):
         if case.get("path", 0) == 0:
+            if tk != "default":
+                params[NM.JOINT_DEGREE_TYPE] = tval
             loader = cls(params)
         else:
-            params[NM.JOINT_DEGREE_TYPE] = tname
+            params[NM.JOINT_DEGREE_TYPE] = tval
             loader = JointDegreeDistribution.load_joint_degree(params)
     jdd = []
     for key, v in loader.jdd.items():
         tag = 1 if (type(key) is tuple and all(type(x) is int for x in key)) else 0
         jdd.append([[int(x) for x in key], core.q_tree(v), tag])
     d = max(1, len(case.get("bounds", [])))
-    calls = [[[int(x) for x in e[1]], [core.q_tree(w) for w in (e[2] or [])], e[3]] for e in script.log if e[0] == "choices"]
+    clog = [e for e in script.log if e[0] == "choices"]
+    if len(clog) > 12 or any(e[3] > 64 for e in clog):
+        # far more / far bigger choices calls than any case scripts: keep the observation small
+        calls, idxs = [], []
+    else:
+        calls = [[[int(x) for x in e[1]], [core.q_tree(w) for w in (e[2] or [])], e[3]] for e in clog]
+        idxs = [[int(i) for i in e[4]] for e in clog]
     rounds = [calls[i:i + d] for i in range(0, len(calls), d)]
-    return {"jdd": jdd, "calls": rounds, "unused_answers": len(answers) - script.pos,
-            "same_object": (loader.jdd is given) if k == 0 else None, "cls": type(loader).__name__}
+    return {"jdd": jdd, "calls": rounds, "answers": [idxs[i:i + d] for i in range(0, len(idxs), d)],
+            "n_choices_calls": len(clog),
+            "unused_answers": len(answers) - script.pos, "unexpected": [len(script.unexpected), script.unexpected[:4]],
+            "same_object": (loader.jdd is given) if k == 0 else None, "cls": type(loader).__name__,
+            "inputs_unchanged": inputs() == before and list(loader.motif_sizes) == msz}
 
 
 def model_calls(case, io):
@@ -352,11 +444,17 @@ def compare(case, io, mo):
     for k in mm:
         if (im[k] != mm[k]) if exact else (not core.close(im[k], mm[k])):
             return f"jdd[{k}]: impl {im[k]} model {mm[k]}"
+    if io["unexpected"][0]:
+        return f"{io['unexpected'][0]} random calls the documented behaviour does not make: {io['unexpected'][1]}"
     if case["kind"] == 3:
         if _calls_norm(io["calls"]) != _calls_norm(mo["calls"]):
             return f"choices calls: impl {io['calls']} model {mo['calls']}"
         if io["unused_answers"]:
             return f"{io['unused_answers']} scripted choices answers were not consumed"
+    elif io["n_choices_calls"]:
+        return f"{io['n_choices_calls']} random.choices calls by a loader that does not sample"
+    if not io["inputs_unchanged"]:
+        return "the caller's parameters (observed sequence / dictionary / bounds / callables / motif sizes) were modified"
     if not all(t for _, _, t in io["jdd"]):
         return "a jdd key is not a tuple of ints"
     if case["kind"] == 0 and not io["same_object"]:
@@ -367,8 +465,9 @@ def compare(case, io, mo):
 def check_calls(case, io):
     if core.is_exc(io) or not is_valid(case):
         return []
-    return [("c06_check", [case["kind"], payload(case), case.get("rounds", []), io["calls"] if case["kind"] == 3 else [],
-                           [[k, q] for k, q, _ in io["jdd"]]])]
+    # sampling mode is judged on the answers the oracle ACTUALLY gave (scripted or fallback) to the calls actually made
+    return [("c06_check", [case["kind"], payload(case), io["answers"] if case["kind"] == 3 else [],
+                           io["calls"] if case["kind"] == 3 else [], [[k, q] for k, q, _ in io["jdd"]]])]
 
 
 def check_verdict(case, io, raws):
@@ -393,6 +492,25 @@ def nontrivial_key(case, io):
 
 def shrink(case):
     k = case["kind"]
+    if "opts" in case:
+        o = case["opts"]
+        if k != 3 and (o.get("use_sampling", "absent") != "absent" or o.get("n_samples", "absent") != "absent"
+                       or o.get("type_key", "default") != "default"):
+            c = copy.deepcopy(case)
+            del c["opts"]
+            yield c
+            if o.get("n_samples", "absent") != "absent":
+                c = copy.deepcopy(case)
+                c["opts"]["n_samples"] = "absent"
+                yield c
+        if o.get("type_key", "default") != "default":
+            c = copy.deepcopy(case)
+            c["opts"]["type_key"] = "default"
+            yield c
+    if "sizes" in case and any(x != 2 for x in case["sizes"]):
+        c = copy.deepcopy(case)
+        c["sizes"] = [2] * len(case["sizes"])
+        yield c
     if case.get("path", 0) == 1:
         c = copy.deepcopy(case)
         c["path"] = 0
@@ -431,6 +549,8 @@ def shrink(case):
             c = copy.deepcopy(case)
             c["n"] = n - 1
             c["rounds"] = [[ix[:-1] for ix in rnd] for rnd in case["rounds"]]
+            if "opts" in c:
+                c["opts"]["n_samples"] = n - 1
             yield c
         d = len(case["bounds"])
         if d > 1 and len(case["tables"]) >= d:
@@ -453,12 +573,25 @@ def describe(case, io):
 
 def histogram(cases):
     h = {k: 0 for k in KINDS}
-    h.update({"dispatcher_path": 0, "malformed": 0, "empty_box": 0, "max_box_points": 0})
+    h.update({"dispatcher_path": 0, "malformed": 0, "empty_box": 0, "max_box_points": 0, "use_sampling_explicit_False": 0,
+              "n_samples_explicit_in_direct_mode": 0, "optional_keys_on_other_loaders": 0,
+              "empirical_column_total_not_multiple_of_size": 0})
     for c in cases:
         h[KINDS[c["kind"]]] += 1
         h["dispatcher_path"] += c.get("path", 0)
         if not is_valid(c):
             h["malformed"] += 1
+        o = c.get("opts") or {}
+        if o.get("use_sampling") == "False":
+            h["use_sampling_explicit_False"] += 1
+        if c["kind"] == 2 and o.get("n_samples", "absent") != "absent":
+            h["n_samples_explicit_in_direct_mode"] += 1
+        if c["kind"] in (0, 1, 4) and (o.get("use_sampling", "absent") != "absent" or o.get("n_samples", "absent") != "absent"):
+            h["optional_keys_on_other_loaders"] += 1
+        if c["kind"] == 1 and c["jds"]:
+            sz = c.get("sizes") or [2] * len(c["jds"][0])
+            if any(sum(col) % s_ for col, s_ in zip(zip(*c["jds"]), sz)):
+                h["empirical_column_total_not_multiple_of_size"] += 1
         if "bounds" in c:
             pts = 1
             for b in c["bounds"]:
